@@ -295,13 +295,9 @@ def comment_helper(q, cx, fn, call, callee):
                 ch = callee.trace(n["r"])
                 out["first"] = ch
                 # assignment only when the javadoc is still None
-                conds = H.path_conditions(callee.root, n)
-                out["first_when_none"] = any(k == "iflet" and pol is False and H.pat_variant(c["pat"]) and H.pat_variant(c["pat"])[1] == "Some"
-                                             and H.local_of(c["init"]) and H.local_of(c["init"])[0] == pids[0] for k, c, pol in conds)
+                out["first_when_none"] = U.option_conditions(callee.root, n, pids[0]) == {"none"}
         if n.get("k") == "mcall" and n["name"] in ("push", "push_str"):
-            conds = H.path_conditions(callee.root, n)
-            under_some = any(k == "iflet" and pol is True and H.pat_variant(c["pat"]) and H.pat_variant(c["pat"])[1] == "Some"
-                             and H.local_of(c["init"]) and H.local_of(c["init"])[0] == pids[0] for k, c, pol in conds)
+            under_some = U.option_conditions(callee.root, n, pids[0]) == {"some"}
             tgt = callee.trace(n["recv"])
             on_payload = [h for h in tgt.hops if h[0] == "f"][-1:] == [("f", "JavadocMapping", "0")]
             if not (under_some and on_payload):
@@ -611,23 +607,18 @@ def r12_2(q, R, cx, spec):
     R.floor("R12.2", 14)
 
 
-def mentions_param(fn, expr, idx):
-    """Does an expression depend on parameter `idx` of fn's function (through lets and call arguments)?"""
-    def chain_has(c, depth=0):
-        if c.root[0] == "param" and c.root[1] == idx and c.root[4] == fn.body["key"]:
-            return True
-        if depth > 4:
-            return False
-        for h in c.hops:
-            for x in h[2:]:
-                if isinstance(x, U.Chain) and chain_has(x, depth + 1):
-                    return True
-                if isinstance(x, list) and any(isinstance(y, U.Chain) and chain_has(y, depth + 1) for y in x):
-                    return True
+def mentions_param(fn, expr, idx, depth=0):
+    """Does an expression depend on parameter `idx` of fn's function (directly or through `let` bindings)?"""
+    if depth > 6:
         return False
     for n in H.walk(expr):
         if n.get("k") == "path" and n["res"].get("r") == "local":
-            if chain_has(fn.trace(n)):
+            b = fn.binds.get(n["res"]["id"])
+            if b is None:
+                continue
+            if b.origin[0] == "param" and b.origin[1] == idx:
+                return True
+            if b.origin[0] in ("let", "letexpr") and "init" in b.origin[1] and mentions_param(fn, b.origin[1]["init"], idx, depth + 1):
                 return True
     return False
 
@@ -643,9 +634,9 @@ def after_fields(ch):
 def strip_shape(ch, base_sig):
     """`X.get_inner_class_name().unwrap_or(X)`: the calls after the base place, with the fallback being the same place."""
     calls = [h for h in ch.hops if h[0] == "call"]
-    if [c[1] for c in calls] != ["get_inner_class_name", "unwrap_or"]:
+    if [c[1] for c in calls] not in (["get_inner_class_name", "unwrap_or"], ["get_inner_class_name", "filter", "unwrap_or"]):
         return False
-    alt = calls[1][2]
+    alt = calls[-1][2]
     return isinstance(alt, U.Chain) and alt.root == ch.root and alt.sig() == base_sig
 
 
